@@ -279,6 +279,10 @@ Definition softmax_jac_row (x : list R) : R :=
 Definition softmax_jac (xs : list (list R)) : option (list R) :=
   if forallb softmax_row_ok xs then Some (map softmax_jac_row xs) else None.
 
+(* flattened views (the harness compares the raveled arrays) *)
+Definition oflat (m : option (list (list R))) : option (list R) :=
+  match m with Some l => Some (concat l) | None => None end.
+
 (* ------------------------------------------------------------------ *)
 (* Sinh : params nu, scale                                              *)
 Definition sinh_fwd (nu scale x : R) : R := arcsinh ((x - nu) * scale).
